@@ -47,3 +47,20 @@ Proof. exact early_release_refuted. Qed.
 
 Example C10_ex : snd (prun false (pstart [[1%N]; [2%N]]) [0; 1; 0; 1; 0; 0; 1; 1; 1]%nat) = [([1%N], PDone [1%N]); ([2%N], PDone [2%N])].
 Proof. vm_compute. reflexivity. Qed.
+
+(* ---- first use of field queries from several goroutines (Model/FilterShare.v) ---- *)
+From GJ Require Import Gen.FilterPure Model.FilterShare Proofs.FilterShareP.
+(* code.go, as the translator read it: no Filter method assigns to its receiver -- the code tree cached for a type,
+   which every goroutine filters by its own query, is never written *)
+Theorem C10_filter_leaves_the_cached_tree_alone : filter_writes_receiver = [] /\ filter_methods <> 0%nat.
+Proof. split; [reflexivity|vm_compute; intro H; discriminate H]. Qed.
+Definition filter_writes : bool := match filter_writes_receiver with [] => false | _ => true end.
+(* any number of goroutines, each filtering the shared tree by its own query and compiling the result, under EVERY
+   schedule of their steps: a goroutine that has finished has compiled the program of its own query *)
+Theorem C10_own_query_under_any_schedule : forall queries schedule,
+  Forall (fun t => (f_pc t >= 2)%nat -> f_result t = Some (f_query t)) (threads (frun filter_writes (finit queries) schedule)).
+Proof. unfold filter_writes. rewrite (proj1 C10_filter_leaves_the_cached_tree_alone). exact own_query_under_any_schedule. Qed.
+Print Assumptions C10_own_query_under_any_schedule.
+Theorem C10_filter_writing_its_receiver_refuted :
+  map f_result (threads (frun true (finit [7; 9]%nat) [0; 1; 0; 1]%nat)) = [Some 9; Some 9]%nat.
+Proof. exact writes_receiver_refuted. Qed.
